@@ -20,9 +20,12 @@ package tso
 //@   ensures [fresh] err == nil ==> revision > old(max_issued) && max_issued == revision && pending == revision && revision != 0 && revision < 0x8000000000000000
 //@   ensures [failed] err != nil ==> revision == 0 && max_issued == old(max_issued) && pending == old(pending)
 
+// committed: the committed (readable) revision as the interface reports it
+//@ ghost committed (_ BitVec 64)
 //@ func TSO.GetRevision() (maxCommittedRevision)
 //@   assumed
 //@   pure
+//@   ensures [the-committed-revision] maxCommittedRevision == committed
 
 //@ func TSO.Commit(revision)
 //@   assumed
